@@ -109,55 +109,153 @@ def job_render(job):
     }
 
 
+MODEL_TAGS = ("if", "unless", "case", "for", "capture", "liquid", "comment", "doc", "assign", "break")
+
+
+def _model_tokens(env, tokens, depth=0):
+    """Real tokens -> the token alphabet of Model/ParseLoops.lean. The text of an expression that follows a
+    `liquid` tag is tokenized with the tag's own tokenizer (`inner`). Returns None when that tokenizer raises."""
+    from liquid.token import TOKEN_CONTENT, TOKEN_DOC, TOKEN_EXPRESSION, TOKEN_OUTPUT, TOKEN_TAG
+
+    out = []
+    prev_liquid = False
+    for t in tokens:
+        k = t.kind
+        if k == TOKEN_TAG:
+            out.append(["tag", t.value])
+        elif k == TOKEN_EXPRESSION:
+            inner = []
+            if prev_liquid and depth < 40:
+                try:
+                    inner_toks = list(env.tags["liquid"]._tokenize(t.value, token=t))
+                except Exception:  # noqa: BLE001
+                    return None
+                inner = _model_tokens(env, inner_toks, depth + 1)
+                if inner is None:
+                    return None
+            out.append(["expr", inner])
+        elif k == TOKEN_CONTENT:
+            out.append("content")
+        elif k == TOKEN_OUTPUT:
+            out.append("output")
+        elif k == "COMMENT":
+            out.append("comment")
+        elif k == TOKEN_DOC:
+            out.append("doc")
+        else:
+            return None
+        prev_liquid = k == TOKEN_TAG and t.value == "liquid"
+    return out
+
+
+def _skeleton(nodes):
+    out = []
+    for n in nodes:
+        cn = type(n).__name__
+        if cn in ("IfNode", "UnlessNode"):
+            out.append("if" if cn == "IfNode" else "unless")
+            out += _blk(n.consequence)
+            for alt in n.alternatives:
+                out += _blk(alt.block)
+            if n.default is not None:
+                out += _blk(n.default)
+        elif cn == "CaseNode":
+            out.append("case")
+            for b in n.blocks:
+                out += _blk(b.block if type(b).__name__ == "MultiExpressionBlockNode" else b)
+        elif cn == "ForNode":
+            out.append("for")
+            out += _blk(n.block)
+            if n.default is not None:
+                out += _blk(n.default)
+        elif cn == "CaptureNode":
+            out.append("capture")
+            out += _blk(n.block)
+        elif cn == "LiquidNode":
+            out.append("liquid")
+            out += _blk(n.block)
+        else:
+            out.append(
+                {
+                    "CommentNode": "comment",
+                    "DocNode": "doc",
+                    "AssignNode": "assign",
+                    "OutputNode": "output",
+                    "ContentNode": "content",
+                    "BreakNode": "break",
+                    "IllegalNode": "illegal",
+                }.get(cn, "?" + cn)
+            )
+    return out
+
+
+def _blk(b):
+    return ["("] + _skeleton(b.nodes) + [")"]
+
+
 def job_parse(job):
-    """Parse one source text. Observation: outcome class, CPU time, token count and the number of
-    stream advances (`next`) made by the parser, plus the block skeleton of the tree."""
+    """Parse one source text the way `Environment._parse` does (lexer -> TokenStream -> Parser.parse).
+    Observation: outcome class, CPU time, and (when `model` is set) the token list in the model's alphabet,
+    the final position of the template stream and the skeleton of the tree."""
     from liquid import Environment, Mode
-    from liquid import stream as stream_mod
+    from liquid.parser import get_parser
+    from liquid.stream import TokenStream
 
     mode = {"strict": Mode.STRICT, "lax": Mode.LAX, "warn": Mode.WARN}[job.get("mode", "strict")]
-    env = Environment(tolerance=mode, extra=bool(job.get("extra", False)))
+
+    class Env(Environment):
+        block_nesting_limit = job.get("block_limit", 30)
+
+    env = Env(tolerance=mode, extra=bool(job.get("extra", False)))
     import warnings
 
     warnings.simplefilter("ignore")
     src = job["source"]
-    counts = {"next": 0, "tokens": 0, "streams": 0}
-    TS = stream_mod.TokenStream
-    orig_init = TS.__init__
-    orig_next = TS.next_token
-
-    def init(self, tokens, block_depth_carry=0):
-        orig_init(self, tokens, block_depth_carry)
-        counts["streams"] += 1
-        if job.get("count_all") or counts["streams"] == 1:
-            pass
-
-    def next_token(self):
-        counts["next"] += 1
-        return orig_next(self)
-
-    out = "ok"
-    liquid = None
+    if job.get("repeat"):
+        src = src * int(job["repeat"])
+    res = {"len": len(src)}
     t0 = time.process_time()
-    TS.__init__ = init
-    TS.next_token = next_token
-    TS.__next__ = lambda self: self.next_token()
-    try:
+    if not job.get("model"):
+        out, liquid = "ok", None
         try:
-            t = env.from_string(src)
-            out = "ok"
-            if job.get("skeleton"):
-                pass
+            env.from_string(src)
         except _CpuTimeout:
             raise
         except BaseException as e:  # noqa: BLE001
             out = _classify(e)
             liquid = _is_liquid(e) and out != "RecursionError"
-    finally:
-        TS.__init__ = orig_init
-        TS.next_token = orig_next
-        TS.__next__ = lambda self: self.next_token()
-    return {"out": out, "liquid": liquid, "cpu_s": round(time.process_time() - t0, 4), "next": counts["next"], "len": len(src)}
+        res.update({"out": out, "liquid": liquid, "cpu_s": round(time.process_time() - t0, 4)})
+        return res
+    try:
+        tokens = list(env.tokenizer()(src))
+    except _CpuTimeout:
+        raise
+    except BaseException as e:  # noqa: BLE001
+        res.update({"out": "lexer:" + _classify(e), "liquid": _is_liquid(e), "tokens": None, "cpu_s": round(time.process_time() - t0, 4)})
+        return res
+    mtoks = _model_tokens(env, tokens)
+    stream = TokenStream(iter(tokens))
+    out, liquid, skel = "ok", None, None
+    try:
+        nodes = get_parser(env).parse(stream)
+        skel = _skeleton(nodes)
+    except _CpuTimeout:
+        raise
+    except BaseException as e:  # noqa: BLE001
+        out = _classify(e)
+        liquid = _is_liquid(e) and out != "RecursionError"
+    res.update(
+        {
+            "out": out,
+            "liquid": liquid,
+            "tokens": mtoks,
+            "ntokens": len(tokens),
+            "pos": min(stream.pos, len(tokens)),
+            "skeleton": skel,
+            "cpu_s": round(time.process_time() - t0, 4),
+        }
+    )
+    return res
 
 
 JOBS = {"render": job_render, "parse": job_parse}
